@@ -431,7 +431,10 @@ def run(tier, seed):
                 for n, _ in sorted(files):
                     so, _, _ = clirun.run_main(['-f', os.path.join(path, n), '-E'])
                     if so.strip():
-                        singles.append(json.loads(so))
+                        try:
+                            singles.append(json.loads(so))
+                        except ValueError:      # what -f printed is an outcome, not a harness error
+                            singles.append({'<-f output is not JSON>': so[:300]})
                 ck.case(key=('dir', tuple(files)))
                 ck.count('directory order')
                 rp = {'op': 'dir-order', 'files': [(n, b.hex()) for n, b in files]}
